@@ -482,8 +482,20 @@ impl Job for Transcript {
             Ok(e) => e,
             Err(e) => return json!({"id": sc.id, "prove": "ok", "verify": res_json(&v), "expected": e}),
         };
+        // the public inputs as they enter the seed, and the trace metadata carried in the proof (the rest of the seed is
+        // recomputed by Trace_Stark.tla from the statement, not through the library's to_elements)
+        let pub_bytes: Vec<u8> = {
+            use winter_math::ToElements;
+            use winter_utils::Serializable;
+            let mut v = Vec::new();
+            for e in b.inputs.to_elements() {
+                e.write_into(&mut v);
+            }
+            v
+        };
         self.out.push(json!({"ev": "begin", "id": sc.id, "t": st, "expected": exp, "nonce": proof.pow_nonce.to_le_bytes().to_vec(),
-            "lde": proof.context.lde_domain_size(), "unique": proof.num_unique_queries}).to_string());
+            "lde": proof.context.lde_domain_size(), "unique": proof.num_unique_queries,
+            "meta": proof.context.trace_info().meta().to_vec(), "pub": pub_bytes}).to_string());
         for (role, log) in [("P", &plog), ("V", &vlog)] {
             let mut nclz = 0usize;
             for (i, c) in log.iter().enumerate() {
